@@ -189,7 +189,11 @@ def main(tier):
             pos = {d: i for i, d in enumerate(order)}
             ck.violation("order:%s:%s" % ("+".join(sub), ",".join(d for d in sub if any(pos[d] < pos[x] for x in DECLS[d][1]))), "%s\nprogram:\n%s" % (p, src),
                          {"tool": "vdrv", "job": {"kind": "run", "opts": {"gc": "own", "warn": 0}, "blobs": {"src": src}}})
-    if vacuous:
+    if vacuous and ck.violations:
+        # a change that makes the verdict depend on the order usually also turns some orders' first permutation into a rejection: the order
+        # violations above are the finding; the vacuity is a consequence of it, not a generator problem (seed C10-4)
+        ck.note("subsets rejected in their first order while order violations were found: %s" % vacuous[:6])
+    elif vacuous:
         ck.harness_error("declaration subsets that are meant to be accepted are rejected in every order (the order comparison is vacuous for them): %s" % vacuous[:6])
     ck.sample({"subset": ["B", "D", "f1"], "one_order": program(("D", "main", "B", "f1"), ("f1", "B", "D"))})
     ck.assumptions += ["messages and positions may differ between permutations; only the status category and stdout are compared"]
